@@ -640,9 +640,22 @@ func (vr *variableResolver) Evaluate(ctx *ExecutionContext) (*Value, *Error) {
 			// level it passes - quadratic in the depth of a recursion that ends in an error
 			return AsValue(nil), inner
 		}
-		return AsValue(nil), ctx.Error(err.Error(), vr.locationToken)
+		return AsValue(nil), ctx.Error(errorText(err), vr.locationToken)
 	}
 	return value, nil
+}
+
+// errorText is err.Error(). The error may be one a context function returned: its Error
+// method is the caller's code, and one that panics (a struct that embeds a nil error
+// promotes Error() through the nil) must not take the rendering down - the failure is
+// reported without its text then.
+func errorText(err error) (text string) {
+	defer func() {
+		if r := recover(); r != nil {
+			text = fmt.Sprintf("error of type %T (its Error method panicked: %v)", err, r)
+		}
+	}()
+	return err.Error()
 }
 
 func (v *nodeFilteredVariable) FilterApplied(name string) bool {
